@@ -473,6 +473,15 @@ func (m *MutAnalysis) Mutations(fn *ssa.Function, seeds []ssa.Value, chain []str
 							if len(com.Args) > 0 && isD(com.Args[0]) {
 								add(pos, "Read into caller memory", nil)
 							}
+						} else if idx, known := extMutators[com.Method.FullName()]; known {
+							// an interface method of the standard library that writes an
+							// argument (cipher.BlockMode.CryptBlocks(dst, src)): the table
+							// counts the receiver as argument 0
+							for _, i := range idx {
+								if i >= 1 && i-1 < len(com.Args) && isD(com.Args[i-1]) {
+									add(pos, fmt.Sprintf("%s writes its argument %d", com.Method.FullName(), i), nil)
+								}
+							}
 						}
 						continue
 					}
